@@ -253,6 +253,16 @@ where
                 Out::Y(v)
             });
             step!(st, outs, 51, "size_hint", Out::V(x.size_hint() as u128));
+            // the closure-based encoding entry point (storage writes and key hashing use it) and the adapters built on it
+            step!(st, outs, 52, "using_encoded", Out::Y(x.using_encoded(|b| b.to_vec())));
+            step!(st, outs, 53, "using_encoded(ref)", Out::Y((&x).using_encoded(|b| b.to_vec())));
+            step!(st, outs, 54, "using_encoded(box)", Out::Y(Box::new(x).using_encoded(|b| b.to_vec())));
+            step!(st, outs, 55, "using_encoded(tuple1)", Out::Y((x,).using_encoded(|b| b.to_vec())));
+            step!(st, outs, 56, "to_keyed_vec", Out::Y(codec::KeyedVec::to_keyed_vec(&x, &[0xAAu8])));
+            step!(st, outs, 57, "joiner_and", Out::Y(codec::Joiner::and(vec![0xAAu8], &x)));
+            step!(st, outs, 58, "encode(ref)", Out::Y((&x).encode()));
+            step!(st, outs, 59, "encode(arc)", Out::Y(std::sync::Arc::new(x).encode()));
+            step!(st, outs, 60, "encoded_size(box)", Out::V(Box::new(x).encoded_size() as u128));
             // the serde data model itself, recorded by a serializer that answers is_human_readable() either way: one record
             // with the single field `bits` holding the integer; and played back through a self-describing deserializer
             for (k, human) in [(0usize, true), (1usize, false)] {
